@@ -127,13 +127,23 @@ var sySvcNames = []string{"verif.SyA", "verif.SyB"}
 
 func syUnaryIndex(path string) int {
 	for mi := 0; mi < syNUnary; mi++ {
-		if path == syUnaryPath(mi) {
+		if path == syUnaryPath(mi) || path == syUnaryPath(mi)[1:] {
 			return mi
 		}
 	}
 	return -1
 }
 func syUnaryPath(mi int) string { return fmt.Sprintf("/%s/U%d", sySvcNames[mi/3], mi%3) }
+
+// syCallPath: the method string call c uses: every third call spells it WITHOUT the leading slash (hand-written
+// callers and generic forwarders do; the server accepts both spellings)
+func syCallPath(mi int, c int64) string {
+	p := syUnaryPath(mi)
+	if c%3 == 2 {
+		return p[1:]
+	}
+	return p
+}
 func syStreamKind(si int) int   { return (si % 6) / 2 }
 func syStreamPath(si int) string {
 	return fmt.Sprintf("/%s/%c%d", sySvcNames[si/6], "CSB"[syStreamKind(si)], si%2)
@@ -740,7 +750,7 @@ func (r *syRig) invoke(ctx context.Context, c int64, mi int, req []byte, in, out
 	ctx = metadata.AppendToOutgoingContext(ctx, "sy-c", strconv.FormatInt(c, 10))
 	in.Value = req
 	r.hist.add(fmt.Sprintf("CInvS %d %s %s", c, syTM(mi, req), syT(syMixM(mi, req))))
-	err := r.cc.Invoke(ctx, syUnaryPath(mi), in, out)
+	err := r.cc.Invoke(ctx, syCallPath(mi, c), in, out)
 	r.hist.add(fmt.Sprintf("CInvR %d %s", c, syRes(err, out.Value)))
 	return err
 }
@@ -755,7 +765,7 @@ func (r *syRig) invokePlain(ctx context.Context, c int64, mi int, req []byte, in
 	req = append(p, req...)
 	in.Value = req
 	r.hist.add(fmt.Sprintf("CInvS %d %s %s", c, syTM(mi, req), syT(syMixM(mi, req))))
-	err := r.cc.Invoke(ctx, syUnaryPath(mi), in, out)
+	err := r.cc.Invoke(ctx, syCallPath(mi, c), in, out)
 	r.hist.add(fmt.Sprintf("CInvR %d %s", c, syRes(err, out.Value)))
 	return err
 }
